@@ -160,6 +160,45 @@ Proof.
     split; [lia|]. split; [cbn; lia|]. intros q. destruct (cs_limits q) as [E|E]; [left; exact E|right; rewrite E; lia].
 Qed.
 
+(* ---- the engine's send path and agency (findings of the chain-sync builder) --
+   `done-sent-without-agency`: the model exhibits it and it does not contradict
+   C12_interleave.  sendLoop WRITES every message it finds queued behind the
+   first one of a batch (pipelining) and only queues its TRANSITION; the
+   theorem is about transitions.  Here Done is on the wire while the state is
+   CanAwait (server agency); its transition is still queued and is made when
+   agency returns. *)
+Example C12_done_written_without_agency :
+  match run sm_chainsync_ntn RClient 1 55 consts_gen (init sm_chainsync_ntn RClient 1)
+    [Enq (M 1 0 3 []); Enq (M 2 7 3 []); TakeSendToken; SendDeq; SendDeq; BatchEnd; SendSeg 6] with
+  | Some s => map m_id (wire_log (lg s)) = [1; 2] /\ seg_log (lg s) = [6] /\ cur (c s) = 2 /\
+              agency_of sm_chainsync_ntn (cur (c s)) = AServer /\ map m_id (queued (sn s)) = [2] /\
+              map m_id (strans_log (lg s)) = [1]
+  | None => False
+  end.
+Proof. vm_compute. repeat split; reflexivity. Qed.
+(* `stop-hangs-sendqueue-full`: SendMessage blocks (the label is not enabled)
+   while the send queue is full; sendLoop drains it only with a token, i.e. not
+   while the peer has agency and nothing arrives *)
+Theorem C12_enq_blocks_when_full : forall sm r s0 rqcap k s m,
+  c_sendqcap k <= N.of_nat (length (sendq (sn s))) -> step sm r s0 rqcap k s (Enq m) = None.
+Proof.
+  intros sm r s0 rqcap k s m H. cbn. unfold do_enq.
+  assert (E : (N.of_nat (length (sendq (sn s))) <? c_sendqcap k) = false) by (apply N.ltb_ge; exact H).
+  rewrite E, andb_false_r. reflexivity.
+Qed.
+Theorem C12_sendloop_needs_token : forall sm r s0 rqcap k s l s',
+  sph (sn s) = SWait -> sendTok (c s) = false -> step sm r s0 rqcap k s l = Some s' ->
+  sendq (sn s') = sendq (sn s) \/ exists m, sendq (sn s') = sendq (sn s) ++ [m].
+Proof.
+  intros sm r s0 rqcap k s l s' HP HT HS. destr_st s. cbn in *. subst.
+  destruct l; cbn in HS;
+    unfold do_enq, do_enq_over, do_take_send, do_send_queued, do_send_deq, do_batch_end, do_send_seg,
+      do_seg_in, do_dec_incomplete, do_dec_bad, do_dec_empty, do_dec_msg, do_admit, do_put, do_take_recv,
+      do_handle, do_handler_call, do_handler_ret, do_send_error, do_exit in HS; cbn in HS;
+    crush HS; auto.
+  right. eexists; reflexivity.
+Qed.
+
 (* non-vacuity: a pipelined chain-sync client (three RequestNext in one batch) *)
 Example C12_pipelined_run :
   match run sm_chainsync_ntn RClient 1 55 consts_gen (init sm_chainsync_ntn RClient 1)
